@@ -20,9 +20,15 @@ type c02cfg struct {
 	putters []int // ops per putter; negative = PutMulti of that many commands (one op)
 	wrap    bool
 	cancel  bool // flow buffer: one putter uses a context cancelled by an extra thread
+	// seq: if set, putter i performs seq[i] in order (1 = PutOne, -k = PutMulti of k commands); putters is then ignored.
+	// Mixed sequences make a slot that carried a batch be reused by a single command and vice versa.
+	seq [][]int
 }
 
 func (c c02cfg) name() string {
+	if c.seq != nil {
+		return fmt.Sprintf("%s/f%d/seq%v/cancel=%v", c.queue, c.factor, c.seq, c.cancel)
+	}
 	return fmt.Sprintf("%s/f%d/%v/wrap=%v/cancel=%v", c.queue, c.factor, c.putters, c.wrap, c.cancel)
 }
 
@@ -49,26 +55,43 @@ func c02body(c c02cfg) func(x *vsched.Exec) {
 			call, ret int
 			err       error
 			got       string
+			n         int // 1 = PutOne, k > 1 (or batch of 1 marked by multi) = PutMulti of k commands
+			multi     bool
 		}
 		var recs []*rec
 		var wlog, rlog []string
 		total := 0
 		cctx, cancel := context.WithCancel(context.Background())
 		cancelled := 0
-		for pi, n := range c.putters {
-			pi, n := pi, n
-			ops := n
-			if n < 0 {
-				ops = 1
+		scripts := c.seq
+		if scripts == nil {
+			for _, n := range c.putters {
+				if n < 0 {
+					scripts = append(scripts, []int{n})
+				} else {
+					one := make([]int, n)
+					for i := range one {
+						one[i] = 1
+					}
+					scripts = append(scripts, one)
+				}
 			}
+		}
+		for pi, script := range scripts {
+			pi, script := pi, script
+			ops := len(script)
 			total += ops
 			vsched.GoNamed(fmt.Sprintf("put%d", pi), func() {
 				for j := 0; j < ops; j++ {
+					n := script[j]
 					ctx := context.Background()
 					if c.cancel && pi == 0 {
 						ctx = cctx
 					}
-					rc := &rec{tag: fmt.Sprintf("p%d.%d", pi, j)}
+					rc := &rec{tag: fmt.Sprintf("p%d.%d", pi, j), n: 1}
+					if n < 0 {
+						rc.n, rc.multi = -n, true
+					}
 					recs = append(recs, rc)
 					var ch chan RedisResult
 					var resps []RedisResult
@@ -170,13 +193,11 @@ func c02body(c c02cfg) func(x *vsched.Exec) {
 			if strings.HasPrefix(rc.got, rc.tag+".") || strings.Contains(rc.got, ",") || (len(c.putters) > 0 && !strings.Contains(rc.got, rc.tag)) {
 				// multi (or wrong) result: expected tags are tag.k
 			}
-			for pi, pn := range c.putters {
-				if pn < 0 && strings.HasPrefix(rc.tag, fmt.Sprintf("p%d.", pi)) {
-					n = -pn
-					tags = tags[:0]
-					for k := 0; k < n; k++ {
-						tags = append(tags, fmt.Sprintf("%s.%d", rc.tag, k))
-					}
+			if rc.multi {
+				n = rc.n
+				tags = tags[:0]
+				for k := 0; k < n; k++ {
+					tags = append(tags, fmt.Sprintf("%s.%d", rc.tag, k))
 				}
 			}
 			want += n
@@ -254,9 +275,15 @@ func TestVerif_C02(t *testing.T) {
 			}
 		}
 		cfgs = append(cfgs, c02cfg{queue: "flow", factor: 1, putters: []int{1, 1, 1}, cancel: true})
+		for _, qn := range []string{"ring", "flow"} {
+			cfgs = append(cfgs,
+				c02cfg{queue: qn, factor: 1, seq: [][]int{{-2, 1, 1, -2, 1}}},
+				c02cfg{queue: qn, factor: 1, seq: [][]int{{-2, 1}, {1, -2}}},
+			)
+		}
 		for ci, c := range cfgs {
 			p := P
-			if len(c.putters) > 2 && p > 1 {
+			if (len(c.putters) > 2 || len(c.seq) > 1) && p > 1 {
 				p-- // three putters: one preemption less to stay within the time budget
 			}
 			vexp.Run(r, vexp.Prog{Name: c.name(), Budget: vsched.Budget{MaxPreempt: p}, Opts: vsched.Options{Horizon: 4000}, Body: c02body(c), Seconds: r.Remaining() / float64(len(cfgs)-ci)})
